@@ -43,6 +43,11 @@ def read (P : Nat) (s : St) (need : Option Nat) : Bytes × St :=
   | none => (r.2, { rest := r.1, buf := [] })
   | some n => (r.2.take n, { rest := r.1, buf := r.2.drop n })
 
+/-- a whole history of reads from one unblocker: the outputs in order -/
+def runReads (P : Nat) : St → List (Option Nat) → List Bytes
+  | _, [] => []
+  | s, n :: ns => let r := read P s n; r.1 :: runReads P r.2 ns
+
 end Unblock
 
 /-! ## VbsReader over an abstract byte source -/
